@@ -387,14 +387,194 @@ def ratDocShape (toks : List Tok) : Bool :=
 
 /-- value of an accepted rational literal: the run-time parser's answer on a literal of the
     documented grammar; everything else must be a compile error -/
-def ratLiteral (toks : List Tok) : Option (QVal × Bool) :=
+def ratLiteralByShape (toks : List Tok) : Option (QVal × Bool) :=
   if ratDocShape toks then (rtRat toks).join else none
 
+-- ================================================================ rationals: the token loop since /repo e26a9db
+
+/-- the character a sign token contributes to the text (`some true` = `-`, `some false` = `+`) -/
+def signText : Option Bool → Bytes
+  | none => []
+  | some true => [45]
+  | some false => [43]
+
+/-- loop state; the value tokens are kept as tokens (ghost information: the code keeps their text) -/
+structure RS where
+  rel : Bool := false
+  nSign : Option Bool := none        -- some true = `-`, some false = `+`
+  nVal : Option Tok := none
+  marked : Bool := false             -- `/` seen
+  dSign : Option Bool := none
+  dVal : Option Tok := none
+  baseMarked : Bool := false
+  base : Option Bytes := none
+  deriving DecidableEq
+
+def isVal : Tok → Bool
+  | .lit _ => true
+  | .ident _ => true
+  | _ => false
+
+/-- one iteration of the `for token in input` loop (after e26a9db) -/
+def ratStepNew (st : RS) (t : Tok) : Option RS :=
+  match t with
+  | .lit s =>
+    if st.nVal.isNone && !st.marked then some { st with nVal := some t }
+    else if st.dVal.isNone && st.marked && !st.baseMarked then some { st with dVal := some t }
+    else if st.base.isNone && st.baseMarked then some { st with base := some s }
+    else none
+  | .ident s =>
+    if st.nVal.isNone && !st.marked then some { st with nVal := some t }
+    else if st.dVal.isNone && st.marked && !st.baseMarked then some { st with dVal := some t }
+    else if st.base.isNone && !st.baseMarked && s == baseKw then some { st with baseMarked := true }
+    else none
+  | .punct c =>
+    if c == 47 then
+      (if st.nVal.isSome && !st.marked && !st.baseMarked then some { st with marked := true } else none)
+    else if c == 126 then
+      (if !st.rel && st.nSign.isNone && st.nVal.isNone && !st.marked then some { st with rel := true } else none)
+    else if c != 45 && c != 43 then none
+    else if st.nVal.isNone && !st.marked && st.nSign.isNone then some { st with nSign := some (c == 45) }
+    else if st.marked && st.dVal.isNone && st.dSign.isNone then some { st with dSign := some (c == 45) }
+    else none
+  | .group _ => none
+
+def ratLoopNew : RS → List Tok → Option RS
+  | st, [] => some st
+  | st, t :: ts => (ratStepNew st t).bind fun st' => ratLoopNew st' ts
+
+def signTok : Option Bool → List Tok
+  | none => []
+  | some true => [.punct 45]
+  | some false => [.punct 43]
+
+/-- the documented literal a state stands for -/
+def render (st : RS) : List Tok :=
+  (if st.rel then [.punct 126] else []) ++ signTok st.nSign ++ st.nVal.toList ++
+  (if st.marked then [.punct 47] ++ signTok st.dSign ++ st.dVal.toList else []) ++
+  (if st.baseMarked then [.ident baseKw] ++ (st.base.map Tok.lit).toList else [])
+
+-- ---------------------------------------------------------------- integers: the token loop since /repo e26a9db
+
+structure IS where
+  sign : Option Bool := none      -- some true = `-`
+  val : Option Tok := none
+  baseMarked : Bool := false
+  base : Option Bytes := none
+  deriving DecidableEq
+
+def intStepNew (signed : Bool) (st : IS) (t : Tok) : Option IS :=
+  match t with
+  | .lit s =>
+    if st.val.isNone then some { st with val := some t }
+    else if st.base.isNone && st.baseMarked then some { st with base := some s }
+    else none
+  | .ident s =>
+    if st.val.isNone then some { st with val := some t }
+    else if st.base.isNone && !st.baseMarked && s == baseKw then some { st with baseMarked := true }
+    else none
+  | .punct c =>
+    if st.val.isNone && st.sign.isNone && signed && (c == 45 || c == 43) then some { st with sign := some (c == 45) }
+    else none
+  | .group _ => none
+
+def intLoopNew (signed : Bool) : IS → List Tok → Option IS
+  | st, [] => some st
+  | st, t :: ts => (intStepNew signed st t).bind fun st' => intLoopNew signed st' ts
+
+def renderInt (st : IS) : List Tok :=
+  signTok st.sign ++ st.val.toList ++ (if st.baseMarked then [.ident baseKw] ++ (st.base.map Tok.lit).toList else [])
+
+def IWF (signed : Bool) (st : IS) : Prop :=
+  (st.val = none → st.baseMarked = false) ∧ (st.baseMarked = false → st.base = none) ∧
+  (st.sign ≠ none → signed = true) ∧ (∀ t, st.val = some t → isVal t = true)
+
+/-- the code after the loop: `val.unwrap()`, then `from_str_radix(val, N)` with `base N`
+    (`base` without a radix: UnsupportedRadix), else `from_str_with_radix_prefix(val)` -/
+def intFinishNew (st : IS) : Option (Bool × Nat) :=
+  match st.val with
+  | none => none
+  | some vt =>
+    let m : Option Nat := match st.base with
+      | some b => (parseU32 b).bind fun r => ubigRadixOpt vt.text r
+      | none => if st.baseMarked then none else (ubigPrefixOpt vt.text 10).map (·.1)
+    m.map fun m => (st.sign == some true, m)
+
+/-- `parse_integer_with_error` since e26a9db, as the code computes it -/
+def intNew (signed : Bool) (toks : List Tok) : Option (Bool × Nat) :=
+  (intLoopNew signed {} toks).bind intFinishNew
+
+/-- the order invariant of the loop: later parts are only present when the earlier ones they depend
+    on are -/
+def WF (st : RS) : Prop :=
+  (st.nVal = none → st.marked = false ∧ st.baseMarked = false) ∧
+  (st.marked = false → st.dSign = none ∧ st.dVal = none) ∧
+  (st.baseMarked = false → st.base = none) ∧
+  (st.baseMarked = true → st.marked = true → st.dVal ≠ none) ∧
+  (∀ t, st.nVal = some t → isVal t = true) ∧ (∀ t, st.dVal = some t → isVal t = true)
+
+def tokText : Option Tok → Bytes
+  | some t => t.text
+  | none => []
+
+def optSign (s : Option Bool) : Bool := s == some true
+
+/-- the code after the loop: `ok_or(NoDigits)`, the `/`-without-denominator check, the two magnitudes
+    (`from_str_radix` with `base N`, else radix prefix of the numerator as the default of the
+    denominator), `from_parts_signed` (zero denominator: panic = compile error), reduction -/
+def ratFinishNew (st : RS) : Option (QVal × Bool) :=
+  match st.nVal with
+  | none => none
+  | some nt =>
+    if st.marked && st.dVal.isNone then none
+    else
+      let nd : Option (Nat × Nat) := match st.base with
+        | some b => (parseU32 b).bind fun r => (ubigRadixOpt nt.text r).bind fun n =>
+            (match st.dVal with
+              | some dt => ubigRadixOpt dt.text r
+              | none => some 1).map fun d => (n, d)
+        | none =>
+          if st.baseMarked then none
+          else (ubigPrefixOpt nt.text 10).bind fun p =>
+            match st.dVal with
+            | some dt => (ubigPrefixOpt dt.text p.2).bind fun q => if p.2 ≠ q.2 then none else some (p.1, q.1)
+            | none => some (p.1, 1)
+      nd.bind fun (n, d) =>
+        if d = 0 then none
+        else
+          let sn := signedVal (optSign st.nSign != optSign st.dSign) n
+          some (if st.rel then qreduce2 sn d else qreduce sn d, st.rel)
+
+/-- the text the run-time parser sees: everything except `~` and `base N` -/
+def ratText (st : RS) : Bytes :=
+  signText st.nSign ++ tokText st.nVal ++
+    (if st.marked then [47] ++ signText st.dSign ++ tokText st.dVal else [])
+
+/-- `RBig/Relaxed::from_str_with_radix_prefix` resp. `from_str_radix` on a text (zero denominator = error) -/
+def ratRuntime (rel : Bool) (text : Bytes) (base : Option Bytes) : Option (QVal × Bool) :=
+  (ratRaw text base).bind fun (n, d) =>
+    if d = 0 then none else some (if rel then qreduce2 n d else qreduce n d, rel)
+
+def finalOK (st : RS) : Prop :=
+  st.nVal ≠ none ∧ (st.marked = true → st.dVal ≠ none) ∧ (st.baseMarked = true → st.base ≠ none)
+
+
+instance (st : RS) : Decidable (finalOK st) := by unfold finalOK; exact inferInstance
+
+/-- `parse_ratio_with_error` since e26a9db, as the code computes it -/
+def ratNew (toks : List Tok) : Option (QVal × Bool) := (ratLoopNew {} toks).bind ratFinishNew
+
+/-- value of an accepted rational literal: the token loop decides acceptance (it accepts exactly the
+    renderings of well-formed states = the documented grammar, Props/C20), the value is the
+    run-time parser's on the text; everything else must be a compile error -/
+def ratLiteral (toks : List Tok) : Option (QVal × Bool) :=
+  (ratLoopNew {} toks).bind fun st => if finalOK st then ratRuntime st.rel (ratText st) st.base else none
+
+/-- `static` for the static variant, `const` when both parts take the u32 const constructor (the
+    documented "can be assigned to a constant"), otherwise built at run time by `from_parts` -/
 def ratPathName (static_ : Bool) (q : QVal) : String :=
   if static_ then "static"
   else if bitLen q.num.natAbs ≤ 32 && bitLen q.den ≤ 32 then "const"
-  else
-    "parts(" ++ (if bitLen q.num.natAbs ≤ 32 then "const" else "bytes") ++ "," ++
-      (if bitLen q.den ≤ 32 then "const" else "bytes") ++ ")"
+  else "heap"
 
 end Dashu.Model.Macro
